@@ -72,6 +72,66 @@ theorem C09_history_react_outcomes (cfg : Cfg) (beh : Beh) (w : World) (k i : Na
   exact warranted_cycle ⟨cfg, beh, i, k⟩ .preReact .react .postReact
     (outcome_excl (by decide) (by decide)) (outcome_excl (by decide) (by decide)) (outcome_excl (by decide) (by decide)) _
 
+/-- an outcome callback leaves the plan empty: whenever the plan step delivers one, the plan is empty right after it -/
+theorem planStep_outcome_empties (env : Env) (s : St) (h : outcomes (planStep env s).2 ≠ []) :
+    (planStep env s).1.core.plan = [] := by
+  have hc := C09_planStep_cases env s
+  by_cases hp : s.core.planExists = true
+  · cases hst : cycleStatus s with
+    | none => exact absurd (hc.1 (Or.inl hst)).1 h
+    | failure => exact (hc.2.1 hst hp).2
+    | success =>
+      by_cases hpl : s.core.plan = []
+      · exact (hc.2.2.2 hst hp hpl).2
+      · exact absurd (hc.2.2.1 hst hp hpl) h
+  · have hp' : s.core.planExists = false := by simpa using hp
+    exact absurd (hc.1 (Or.inr hp')).1 h
+
+/-- **C09 over whole histories — after an outcome callback the plan is empty.**  Any world, `update()` on an active
+    instance: if the call delivers `planSucceeded()` or `planFailed()`, the plan at the end of the call consists of
+    nothing but what user code appended *after* the plan step (during request processing): it is the edit trace of the
+    events of that last part of the call applied to the empty plan. -/
+theorem C09_history_plan_empty_after_outcome (cfg : Cfg) (beh : Beh) (w : World) (k i : Nat) (c : Core)
+    (hg : w.get i = some c) (ha : c.active ≠ 255)
+    (ho : outcomes (stepAll cfg beh w k (.update i)).2 ≠ []) :
+    ∃ es12 es3, (stepAll cfg beh w k (.update i)).2 = es12 ++ es3 ∧
+      ∀ c', (stepAll cfg beh w k (.update i)).1.get i = some c' → c'.plan = editsPlan cfg.cap es3 [] := by
+  have hact : (c.active != 255) = true := by simpa using ha
+  simp only [stepAll, step, Op.inst, Op.name, hg] at ho ⊢
+  rw [if_pos hact] at ho ⊢
+  rw [onCore_snd, outcomes_append, outcomes_api, List.append_nil] at ho
+  -- decomposition of the cycle
+  let e : Env := ⟨cfg, beh, i, k⟩
+  let r1 := cyclePhases e .preUpdate .update .postUpdate { core := c }
+  let r2 := (if e.cfg.plans then planStep e else skip) r1.1
+  let r3 := processRequest e r2.1
+  have hcyc : update e { core := c } = (r3.1, (r1.2 ++ r2.2) ++ r3.2) := by
+    show cycle e .preUpdate .update .postUpdate { core := c } = _
+    rw [cycle_eq_phases]; rfl
+  have hout : outcomes (update e { core := c }).2 = if e.cfg.plans then outcomes (planStep e r1.1).2 else [] :=
+    outcomes_cycle_eq e .preUpdate .update .postUpdate (outcome_excl (by decide) (by decide))
+      (outcome_excl (by decide) (by decide)) (outcome_excl (by decide) (by decide)) { core := c }
+  have hplans : e.cfg.plans = true := by
+    by_cases hp : e.cfg.plans = true
+    · exact hp
+    · rw [hout] at ho; simp only [hp, if_false, Bool.false_eq_true] at ho; exact absurd rfl ho
+  have hr2 : r2 = planStep e r1.1 := by simp only [r2, hplans, if_true]
+  have hempty : r2.1.core.plan = [] := by
+    rw [hr2]
+    apply planStep_outcome_empties
+    rw [hout] at ho
+    simpa only [hplans, if_true] using ho
+  refine ⟨r1.2 ++ r2.2, r3.2 ++ [.api i k "update" (apiObs cfg r3.1.core none)], ?_, ?_⟩
+  · rw [onCore_snd, hcyc]; simp only [List.append_assoc]
+  · intro c' hc'
+    rw [onCore_fst, World.get_put_same, hcyc] at hc'
+    cases hc'
+    rw [editsPlan_append, editsPlan_noEdit _ [_] _ (by intro x hx; simp only [List.mem_singleton] at hx; rw [hx]; rfl)]
+    have := planTrace_processRequest e r2.1
+    rw [hempty] at this
+    exact this
+
+
 /-- the phases leave the active state and the failure bits of states that did not report alone only as far as user
     code says; in particular the active state seen by the plan step is the one the call began in -/
 theorem C09_history_phases_keep_active (env : Env) (pre mid post : Method) (s : St) :
